@@ -6,6 +6,7 @@ import (
 	"fmt"
 	"hash/fnv"
 	"math"
+	"net/url"
 	"sort"
 	"strconv"
 	"strings"
@@ -211,6 +212,20 @@ func (g *genCtx) value(t Ty, path string) interface{} {
 				}
 			}
 			m[k] = g.value(t.Elem(), path+"{"+k+"}")
+		}
+		if len(g.cfg.KeyAlphabet) > 0 && n > 0 && g.h(path+"|twin")%4 == 0 {
+			// a key and its percent-encoded lookalike
+			ks := make([]string, 0, len(m))
+			for k := range m {
+				ks = append(ks, k)
+			}
+			sort.Strings(ks)
+			k := ks[int(g.h(path+"|twinkey")%uint64(len(ks)))]
+			if tw := url.PathEscape(k); tw != k {
+				if _, dup := m[tw]; !dup {
+					m[tw] = g.value(t.Elem(), path+"{"+tw+"}")
+				}
+			}
 		}
 		return m
 	}
